@@ -725,3 +725,83 @@ def control(repo):
     a = sibling(f2)
     b = noabort(f2)
     return any("TryToCopyFrom" in f.construct for f in a.findings) and any("TryToCopyFrom|Read" in f.construct for f in b.findings)
+
+
+# ---- R-ARRAYSEP ---------------------------------------------------------------------------------
+_CM = re.compile(r"//[^\n]*|/\*.*?\*/", re.S)
+
+def _block_after(text, start):
+    """The `{...}` block that begins at or after `start` -> (begin index of '{', end index after '}')."""
+    i = text.index("{", start)
+    depth = 0
+    j = i
+    while j < len(text):
+        if text[j] == "{":
+            depth += 1
+        elif text[j] == "}":
+            depth -= 1
+            if depth == 0:
+                return i, j + 1
+        j += 1
+    raise AnalysisError("unbalanced braces")
+
+
+def arraysep(facts: CppFacts):
+    """R-ARRAYSEP (C06): what the array writer puts between two elements is what the array reader accepts
+    there.  The reader's requirement is read off the code that follows the element update in
+    ReadArrayFromTextStream (which characters do not lead to `return false`); every output mode of
+    WriteArrayToTextStream must then write such a character after an element that is not the last."""
+    res = RuleResult("R-ARRAYSEP")
+    rd = [f for f in facts.functions if f.name == "ReadArrayFromTextStream"]
+    wr = [f for f in facts.functions if f.name == "WriteArrayToTextStream"]
+    if not rd or not wr:
+        raise AnalysisError("ReadArrayFromTextStream / WriteArrayToTextStream not found")
+    rd, wr = rd[0], wr[0]
+    rbody = _CM.sub("", rd.body)
+    k = rbody.find("UpdateFromTextStream(")
+    if k < 0:
+        raise AnalysisError("ReadArrayFromTextStream: element update not found")
+    after = rbody[k:]
+    strict = re.search(r"if\s*\(\s*c\s*!=\s*','\s*\)\s*\{\s*if\s*\(\s*c\s*!=\s*'\}'\s*\)\s*return\s+false\s*;", after)
+    lenient = re.search(r"if\s*\(\s*c\s*!=\s*','\s*&&\s*!\s*stream\s*->\s*Unread\s*\(\s*c\s*\)\s*\)\s*return\s+false\s*;", after)
+    res.instances += 1
+    if strict:
+        accepted = {",", "}"}
+    elif lenient:
+        accepted = None  # anything may follow an element
+    else:
+        raise AnalysisError("ReadArrayFromTextStream: the separator test after an element was not recognised")
+    wbody = _CM.sub("", wr.body)
+    m = re.search(r"if\s*\(\s*options\s*\.\s*multiline\s*\(\s*\)\s*\)", wbody)
+    if not m:
+        raise AnalysisError("WriteArrayToTextStream: no multiline / single-line split")
+    b0, e0 = _block_after(wbody, m.end())
+    els = re.match(r"\s*else\s*", wbody[e0:])
+    if not els:
+        raise AnalysisError("WriteArrayToTextStream: no else branch")
+    b1, e1 = _block_after(wbody, e0 + els.end() - 1)
+    for mode, blk in (("multiline", wbody[b0:e0]), ("single-line", wbody[b1:e1])):
+        res.instances += 1
+        lp = re.search(r"for\s*\(", blk)
+        if not lp or "WriteToTextStream(stream" not in blk:
+            raise AnalysisError(f"WriteArrayToTextStream/{mode}: element loop not found")
+        lb, le = _block_after(blk, lp.end())
+        loop = blk[lb:le]
+        k = loop.find(".WriteToTextStream(stream")
+        tail = loop[k:]
+        # the element branch ends at the first "} else"
+        cut = re.search(r"\}\s*else\b", tail)
+        elem_tail = tail[:cut.start()] if cut else tail
+        writes = re.findall(r"stream\s*->\s*Write\s*\(\s*\"((?:[^\"\\]|\\.)*)\"\s*\)", elem_tail)
+        if accepted is None:
+            continue
+        if not any(w.strip() in accepted and w.strip() for w in writes):
+            res.add(f"{wr.file}|WriteArrayToTextStream|{mode}|separator", f"WriteArrayToTextStream ({mode} output) writes nothing "
+                    f"from {sorted(accepted)} after an element, but ReadArrayFromTextStream returns false unless an element is "
+                    "followed by ',' or '}': an array with more than one element written in this mode cannot be read back",
+                    wr.file, wr.line, "WriteArrayToTextStream")
+        elif len(res.samples) < 2:
+            res.samples.append(f"{mode}: element followed by {writes}")
+    res.detail = {"reader_accepts_after_element": sorted(accepted) if accepted else "anything"}
+    res.analysed = ["runtime/cpp/emboss_text_util.h"]
+    return res
